@@ -1055,6 +1055,11 @@ class Environment:
         if isinstance(names, Undefined):
             names._fail_with_undefined_error()
 
+        if not isinstance(names, (list, tuple)):
+            # Any iterable of names is accepted (a set, a generator). Keep
+            # the names: they are needed again if none of them exists.
+            names = list(names)
+
         if not names:
             raise TemplatesNotFound(
                 message="Tried to select from an empty list of templates."
